@@ -38,13 +38,29 @@ def run(model, rep):
     # ---- BYTES
     # minify() evaluated with recorders (pmstatic.apirun): the object handed to the interpreter's parser is the caller's source itself, text or bytes
     from .. import apirun
-    for what, source in (('text', 'x = "caf\xe9"\r\n'), ('bytes with a latin-1 cookie and CR line ends', b'# -*- coding: latin-1 -*-\rx = "\xe9"\r'), ('bytes with a BOM', b'\xef\xbb\xbfx = 1\n')):
+    ODD = 'a = "p\ufeffq"\nb = "\xa0r\u200bs\x7f"\nc = b"t\x0cu"\nd = f"v\ufeff{a}w\u2028\x1a"\n'
+    TRIPLE = 'a = """l1 \t\r\nl2\t \rl3  """\nb = 1\\\r\n + 2\r\n'
+    LOOKALIKE = 's = """\n# -*- coding: latin-1 -*-\n#!/bin/sh\n"""\nt = "\xe9"\n'
+    sources = [('text', 'x = "caf\xe9"\r\n'), ('bytes with a latin-1 cookie and CR line ends', b'# -*- coding: latin-1 -*-\rx = "\xe9"\r'), ('bytes with a BOM', b'\xef\xbb\xbfx = 1\n'),
+               ('text with U+FEFF, NBSP, zero-width space, DEL, form feed, U+2028 and SUB inside literals', ODD), ('the same as UTF-8 bytes', ODD.encode('utf-8')),
+               ('the same as UTF-8 bytes with a BOM', b'\xef\xbb\xbf' + ODD.encode('utf-8')),
+               ('text: triple-quoted literal with CR LF, CR, tabs and trailing blanks; continuation line', TRIPLE), ('the same as bytes', TRIPLE.encode('utf-8')),
+               ('text: a literal that looks like a coding cookie and a shebang', LOOKALIKE), ('the same as UTF-8 bytes', LOOKALIKE.encode('utf-8')),
+               ('the same as latin-1 bytes under a cookie', b'# coding: latin-1\n' + LOOKALIKE.encode('latin-1'))]
+    for what, source in sources:
         r = apirun.run(model, kwargs={}, source=source)
         parsed = [t for t in r.trace if t[0] == 'parse']
-        ok = len(parsed) == 1 and parsed[0][1] is source or (len(parsed) == 1 and parsed[0][1] == source and type(parsed[0][1]) is type(source))
-        rep.check(ok, 'C16.BYTES', mi.loc(), 'minify(<%s>) hands %r to the parser' % (what, parsed[0][1] if parsed else None), 'the caller\'s source object itself',
-                  'the source is transformed before it is parsed (%r instead of %r): decoding, BOM / cookie handling and line ends are no longer the interpreter\'s own' % (parsed[0][1] if parsed else None, source),
-                  key='C16.BYTES|parse|' + what)
+        handed = parsed[0][1] if len(parsed) == 1 else None
+        ok = handed is source or (type(handed) is type(source) and handed == source)
+        if not ok and isinstance(handed, (str, bytes)):
+            # the property is about the program, not about the object: whatever reaches the parser must denote the tree of the caller's source
+            try:
+                ok = ast.dump(ast.parse(handed)) == ast.dump(ast.parse(source))
+            except (SyntaxError, ValueError):
+                ok = False
+        rep.check(ok, 'C16.BYTES', mi.loc(), 'minify(<%s>) hands %.60r to the parser' % (what, handed), 'the caller\'s source itself, or something the interpreter parses to the identical tree',
+                  'the source is transformed before it is parsed (%r instead of %r) and no longer denotes the same constants: decoding, BOM / cookie handling and line ends are no longer the interpreter\'s own' % (handed, source),
+                  key='C16.BYTES|parse|' + what + ('|bytes' if isinstance(source, bytes) else '|text'))
     # the command line tool: evaluated end to end (pmstatic.clirun) on sources with a BOM, CRLF / CR line ends, a latin-1 cookie, undecodable bytes
     from .. import clirun
     main = model.func(MAIN + '.main')
@@ -60,7 +76,7 @@ def run(model, rep):
             rep.check(ok, 'C16.BYTES', main.loc(), 'pyminify %s with %s' % ('m.py' if via == 'file' else '-', what), 'minify() receives exactly the bytes of the source',
                       'minify() receives %r for the source bytes %r (open modes %s): decoding or newline translation happens before the interpreter sees the source' % (got, data, modes_),
                       key='C16.BYTES|cli|%s|%s' % (via, what))
-    rep.floor('C16.BYTES', 10)
+    rep.floor('C16.BYTES', 18)
 
     # ---- ENC: what is written is the strict UTF-8 encoding of the answer of minify()
     for (what, text, want) in (('non-ASCII text', 'x="\xe9\u20ac\U0001f600"', 'x="\xe9\u20ac\U0001f600"'.encode('utf-8')), ('ASCII text', 'x=1', b'x=1'), ('text with a lone surrogate', 'x="\udc80"', None)):
